@@ -426,11 +426,14 @@ class Send:
     with success exactly when the peer answered ACK; the loop ends with the queue empty."""
 
     cases = [("host", {"dt": secsgem.common.DeviceType.HOST}), ("equipment", {"dt": secsgem.common.DeviceType.EQUIPMENT})]
-    uses = [BQWaitForByteAbs, BQPopByteAbs, SendDataAbsTx, SendQueueEmptyAbs, SendQueueGetAbs, ResolveAbs]
+    # Receive: the contention branch (host yields to an ENQ from the peer) calls the receiver loop; under A-HALF-DUPLEX that
+    # branch is dead, its call-site obligations are discharged vacuously
+    uses = [BQWaitForByteAbs, BQPopByteAbs, SendDataAbsTx, SendQueueEmptyAbs, SendQueueGetAbs, ResolveAbs, Receive]
 
     def inputs(dt):
         q = Obj(ByteQueue, _buffer=ByteArray(), g_stream=Bytes(), g_cursor=Int(0, None), g_starts=ListOf(Int, min_len=1))
         return {"self": Obj(SecsIProtocol, _receive_buffer=q, _settings=Obj(SecsISettings, device_type=Const(dt)),
+                            _thread=Obj(ProtocolDispatcher, g_count=Int(0, None)),
                             _send_queue=Obj(AbsQueue, g_pending=Int(0, None), g_served=Int(0, None), g_owner=Root()),
                             _Protocol__connection=Obj(Connection, g_wire=ByteArray(), g_owner=Root()))}
 
